@@ -411,6 +411,10 @@ def dump_files(text, shell):
     d = tempfile.mkdtemp(prefix='cgv-dot-')
     try:
         dfa, rx = os.path.join(d, 'dfa.dot'), os.path.join(d, 'regex.dot')
+        # the targets already exist and hold more text than any dump (an older, larger dump): what is written must replace it
+        for f in (dfa, rx):
+            with open(f, 'w') as fh:
+                fh.write('digraph old {\n' + '\t_9999 -> _9998 [label="left over from an earlier dump"];\n' * 4000 + '}\n')
         p = subprocess.run([common.COMPLGEN_BIN, '--' + shell, os.path.join(d, 'script'), '--dfa', dfa, '--regex', rx, '-'],
                            input=text, stdout=subprocess.PIPE, stderr=subprocess.PIPE, text=True, timeout=30)
         if p.returncode != 0:
